@@ -73,8 +73,9 @@ def preflight(bindir, chk, cols, classes_of):
                 steps.append(ing.cmd(f"STORE pf_{c.name} FOR p{n} PAYLOAD {body}", ["s", c.kind, cls, j]))
                 keys.append((c.kind, cls, j, f"p{n}"))
         steps.append(ing.cmd(f"QUERY pf_{c.name}", ["q", c.kind]))
-    steps += [{"op": "wal_drain"}, {"op": "crash"}]
+    steps += ing.DRAIN + [{"op": "crash"}]
     rc, obs, err = ing.run_life(bindir, root, "l1", steps)
+    ing.drop_root(root)
     t = ing.by_tag(obs)
     usable = {}
     for c in cols:
@@ -221,7 +222,7 @@ def run_history(args):
             lives.append(cur)
             cur = []
         elif a == "crash":
-            cur += [{"op": "wal_drain"}, {"op": "crash"}]
+            cur += ing.DRAIN + [{"op": "crash"}]
             lives.append(cur)
             cur = []
         # observation after the action
@@ -239,16 +240,21 @@ def run_history(args):
     cur.append({"op": "shutdown"})
     lives.append(cur)
     tags, lives_info = {}, []
+    accepted = 0
     for j, steps in enumerate(lives):
         rc, obs, err = ing.run_life(bindir, root, f"l{j}", steps, epz=epz)
         if not obs or obs[-1].get("op") not in ("crash", "shutdown"):
             return name, None, f"lifetime {j} did not finish: rc={rc} last={obs[-1] if obs else None} {err[-300:]}"
+        accepted += sum(1 for o in obs if o.get("op") == "cmd" and o.get("text", "").startswith("STORE") and ing.status_class(o) == "accept")
+        if obs[-1].get("op") == "crash" and ing.wal_lines(obs) is not None and ing.wal_lines(obs) < accepted:
+            return name, None, f"WAL held {ing.wal_lines(obs)} lines for {accepted} accepted STOREs at the crash (writer had not caught up)"
         tags.update(ing.by_tag(obs))
         for o in obs:
             if o.get("op") == "compact":
                 tags[tuple(o["tag"])] = o
             if o.get("op") == "opened":
                 lives_info.append(o.get("live"))
+    ing.drop_root(root)
     return name, (tags, lives_info, time.time() - t0), None
 
 
@@ -448,6 +454,7 @@ def clone_zones(zones):
 # --------------------------------------------------------------------------- the check
 def run(tier):
     chk = core.Check(PROP, "model_checking", tier)
+    ing.cap_violations(chk)
     bindir = core.build_harness(("vdrive",))
     rnd = random.Random(core.seed())
     q = tier == "quick"
@@ -499,7 +506,7 @@ def run(tier):
     full = with_crash[:nfull] + without[:nfull]
     nocompact = [b for b in three if "compact" not in [s["act"] for s in b] and "crash" in [s["act"] for s in b]
                  and "flush" in [s["act"] for s in b] and "restart" in [s["act"] for s in b]]
-    rest, ncov, nall = select([b for b in behs if b not in full], 24 if q else 300)
+    rest, ncov, nall = select([b for b in behs if b not in full], 24 if q else 150)
     jobs = []
     third = (len(zones) + 2) // 3
     for n, b in enumerate(full):
@@ -507,7 +514,7 @@ def run(tier):
         rnd.shuffle(zs)
         jobs.append((bindir, f"full{n}", b, [zs[:third], zs[third:2 * third], zs[2 * third:]], cols, ret_lines, 2, core.seed() * 100 + n))
     tb = (len(zones_b) + 2) // 3
-    for n, b in enumerate((nocompact[:1] if q else nocompact[:1] + with_crash[:1] + without[:1])):
+    for n, b in enumerate((nocompact[:1] if q else nocompact[:1] + with_crash[:1])):
         zs = clone_zones(zones_b)
         rnd.shuffle(zs)
         jobs.append((bindir, f"fullb{n}", b, [zs[:tb], zs[tb:2 * tb], zs[2 * tb:]], cols, ret_lines, 2, core.seed() * 100 + 20 + n))
